@@ -2779,14 +2779,20 @@ pub mod verif {
     pub static SWEEP_GATE: AtomicU64 = AtomicU64::new(0);
     pub static SWEEP_AT_GATE: AtomicU64 = AtomicU64::new(0);
 
+    /// 1 = the sweeper is parked at its wait point (a STEP starts a pass at once)
+    pub static SWEEP_WAITING: AtomicU64 = AtomicU64::new(0);
+
     pub fn wait_step() {
         while SWEEP_PAUSED.load(Ordering::SeqCst) == 1 {
+            SWEEP_WAITING.store(1, Ordering::SeqCst);
             if SWEEP_STEPS.load(Ordering::SeqCst) > 0 {
                 SWEEP_STEPS.fetch_sub(1, Ordering::SeqCst);
+                SWEEP_WAITING.store(0, Ordering::SeqCst);
                 return;
             }
             std::thread::sleep(std::time::Duration::from_millis(2));
         }
+        SWEEP_WAITING.store(0, Ordering::SeqCst);
     }
     pub fn gate(has_expired: bool) {
         if has_expired && SWEEP_GATE.load(Ordering::SeqCst) == 1 {
